@@ -586,6 +586,7 @@ func checkC31(c *Ctx) string {
 	c.Floor(r1, total, 3, "end-of-input edges in string scanners")
 	c.Stats["string_scanners"] = len(scanners)
 	c.Stats["eof_edges"] = total
+	checkEofTestsRawInput(c, "C31.2 K4c the end-of-input sentinel is compared only with bytes read from the source")
 	return "Decided: in package compile/lexer, for every function that can return an Item with Token == tok.String (found by effect: today rawString and quotedString), " +
 		"for every branch edge that means end of input (index compared against len of a string derived from Lexer.src, or a value derived from read()/peek() compared with the constant eof), " +
 		"every return statement reachable from that edge before another call that reads (read, or a Lexer method calling read within two levels) builds its Item with the constant Token tok.Error " +
